@@ -209,38 +209,26 @@ func ruleMustGuard(c *Ctx, r *RuleResult, fnName, initName, lastField, wordParam
 		failf("%s has no parameter %s", fnName, wordParam)
 	}
 	gates := map[cfgEdge]string{}
-	for _, b := range fn.Blocks {
-		if len(b.Instrs) == 0 {
-			continue
-		}
-		iff, ok := b.Instrs[len(b.Instrs)-1].(*ssa.If)
-		if !ok {
-			continue
-		}
-		cond := iff.Cond
-		neg := false
+	// gateOf: does the condition having the given truth value establish "no previous word" or
+	// "previous word strictly smaller than the new one"?
+	gateOf := func(cond ssa.Value, truth bool) string {
 		for {
 			if u, ok := cond.(*ssa.UnOp); ok && u.Op == token.NOT {
-				cond, neg = u.X, !neg
+				cond, truth = u.X, !truth
 				continue
 			}
 			break
 		}
 		bo, ok := cond.(*ssa.BinOp)
 		if !ok {
-			continue
+			return ""
 		}
 		// gate 2: <recv>.lastWord compared with nil; the edge on which it is nil
 		if (isLoadOfField(bo.X, recv, lastField) && isNilConst(bo.Y)) || (isLoadOfField(bo.Y, recv, lastField) && isNilConst(bo.X)) {
-			if bo.Op == token.NEQ || bo.Op == token.EQL {
-				nilOnTrue := (bo.Op == token.EQL) != neg
-				if nilOnTrue {
-					gates[cfgEdge{b, b.Succs[0]}] = "no previous word"
-				} else {
-					gates[cfgEdge{b, b.Succs[1]}] = "no previous word"
-				}
+			if (bo.Op == token.EQL && truth) || (bo.Op == token.NEQ && !truth) {
+				return "no previous word"
 			}
-			continue
+			return ""
 		}
 		// gate 1: bytes.Compare(<recv>.lastWord, word) op const
 		var call *ssa.Call
@@ -255,11 +243,11 @@ func ruleMustGuard(c *Ctx, r *RuleResult, fnName, initName, lastField, wordParam
 			constLeft = true
 		}
 		if call == nil {
-			continue
+			return ""
 		}
 		cal := call.Call.StaticCallee()
 		if cal == nil || cal.String() != "bytes.Compare" || len(call.Call.Args) != 2 {
-			continue
+			return ""
 		}
 		want := int64(0)
 		switch {
@@ -268,12 +256,72 @@ func ruleMustGuard(c *Ctx, r *RuleResult, fnName, initName, lastField, wordParam
 		case isLoadOfField(call.Call.Args[1], recv, lastField) && call.Call.Args[0] == word:
 			want = 1 // new > previous
 		default:
+			return ""
+		}
+		vals := cmpValuesOnEdge(bo.Op, k, constLeft, truth)
+		if len(vals) == 1 && vals[0] == want {
+			return "previous word strictly smaller"
+		}
+		return ""
+	}
+	for _, b := range fn.Blocks {
+		if len(b.Instrs) == 0 {
+			continue
+		}
+		iff, ok := b.Instrs[len(b.Instrs)-1].(*ssa.If)
+		if !ok {
+			continue
+		}
+		if _, isPhi := iff.Cond.(*ssa.Phi); isPhi {
+			continue // second pass
+		}
+		for ei, truth := range []bool{true, false} {
+			if why := gateOf(iff.Cond, truth); why != "" {
+				gates[cfgEdge{b, b.Succs[ei]}] = why
+			}
+		}
+	}
+	// a short-circuit condition that was materialised (A && B as the value of a switch case): the
+	// If tests a phi of the block; an outgoing edge is a gate when, for every way into the block,
+	// either that way is itself gated, or the value carried on it rules this edge out, or the
+	// condition carried on it is a gate condition for this edge
+	for _, b := range fn.Blocks {
+		if len(b.Instrs) == 0 {
+			continue
+		}
+		iff, ok := b.Instrs[len(b.Instrs)-1].(*ssa.If)
+		if !ok {
+			continue
+		}
+		ph, isPhi := iff.Cond.(*ssa.Phi)
+		if !isPhi || ph.Block() != b {
 			continue
 		}
 		for ei, truth := range []bool{true, false} {
-			vals := cmpValuesOnEdge(bo.Op, k, constLeft, truth != neg)
-			if len(vals) == 1 && vals[0] == want {
-				gates[cfgEdge{b, b.Succs[ei]}] = "previous word strictly smaller"
+			all := true
+			why := ""
+			for pi, pred := range b.Preds {
+				if g, gated := gates[cfgEdge{pred, b}]; gated {
+					why = g
+					continue
+				}
+				e := ph.Edges[pi]
+				if k, isK := e.(*ssa.Const); isK && k.Value != nil {
+					if (k.Value.ExactString() == "true") != truth {
+						continue // this way in never leaves on this edge
+					}
+					all = false
+					break
+				}
+				if g := gateOf(e, truth); g != "" {
+					why = g
+					continue
+				}
+				all = false
+				break
+			}
+			if all && why != "" {
+				gates[cfgEdge{b, b.Succs[ei]}] = why
 			}
 		}
 	}
@@ -302,7 +350,7 @@ func ruleMustGuard(c *Ctx, r *RuleResult, fnName, initName, lastField, wordParam
 					continue
 				}
 				r.inst("%s: value recorded in %s is non-nil (nil means 'no previous word')", fnName, lastField)
-				nonNil := P.Prove(P.nilP(st.Val), b)
+				nonNil := P.Prove(P.nilP(st.Val), b) || overwrittenWhenNil(P, fn, st, recv, lastField)
 				r.oblig(nonNil)
 				if !nonNil {
 					r.find(fnName+":"+lastField+" may be recorded as nil", c.instrPos(st), "%s records %s into %s, which can be nil (the empty word), while the order check treats a nil %s as 'nothing added yet': the empty word can then be added again without an error", fnName, valName(st.Val), lastField, lastField)
@@ -509,6 +557,82 @@ func ruleNonEmpty(c *Ctx, r *RuleResult, calleeName string) {
 	if ncalls == 0 {
 		r.undecided("%s has no call site in the module", calleeName)
 	}
+}
+
+// overwrittenWhenNil: the possibly-nil value v stored by st does not survive to a return: on every
+// path from st, either an edge is crossed on which v is known to be non-nil, or the same field is
+// stored again with a provably non-nil value (db.lastWord = b; if b == nil { db.lastWord = []byte{} }).
+func overwrittenWhenNil(P *Prover, fn *ssa.Function, st *ssa.Store, recv ssa.Value, field string) bool {
+	v := st.Val
+	isField := func(a ssa.Value) bool {
+		fa, ok := a.(*ssa.FieldAddr)
+		if !ok || fa.X != recv {
+			return false
+		}
+		stt := fa.X.Type().Underlying().(*types.Pointer).Elem().Underlying().(*types.Struct)
+		return stt.Field(fa.Field).Name() == field
+	}
+	// edge b -> s implies v != nil ?
+	nonNilEdge := func(b, s *ssa.BasicBlock) bool {
+		iff, ok := b.Instrs[len(b.Instrs)-1].(*ssa.If)
+		if !ok {
+			return false
+		}
+		bo, ok := iff.Cond.(*ssa.BinOp)
+		if !ok || !((bo.X == v && isNilConst(bo.Y)) || (bo.Y == v && isNilConst(bo.X))) {
+			return false
+		}
+		onTrue := b.Succs[0] == s
+		return (bo.Op == token.NEQ && onTrue) || (bo.Op == token.EQL && !onTrue)
+	}
+	type pos struct {
+		b *ssa.BasicBlock
+		i int
+	}
+	start := -1
+	for i, in := range st.Block().Instrs {
+		if in == ssa.Instruction(st) {
+			start = i
+		}
+	}
+	seen := map[*ssa.BasicBlock]bool{}
+	stack := []pos{{st.Block(), start + 1}}
+	for len(stack) > 0 {
+		p := stack[len(stack)-1]
+		stack = stack[:len(stack)-1]
+		stopped := false
+		for i := p.i; i < len(p.b.Instrs) && !stopped; i++ {
+			switch x := p.b.Instrs[i].(type) {
+			case *ssa.Store:
+				if isField(x.Addr) {
+					if !P.Prove(P.nilP(x.Val), p.b) {
+						return false // replaced by another possibly-nil value: that store is judged on its own, this path is not safe
+					}
+					stopped = true
+				}
+			case *ssa.Return:
+				return false
+			case *ssa.Call:
+				// a callee that is given the receiver could read the field
+				for _, a := range x.Call.Args {
+					if a == recv {
+						return false
+					}
+				}
+			}
+		}
+		if stopped {
+			continue
+		}
+		for _, s := range p.b.Succs {
+			if nonNilEdge(p.b, s) || seen[s] {
+				continue
+			}
+			seen[s] = true
+			stack = append(stack, pos{s, 0})
+		}
+	}
+	return true
 }
 
 // ruleBytewise: the labels of the automaton are bytes and words are byte strings. Iterating a word
